@@ -4,14 +4,13 @@
    token stream from the real implementation. *)
 From Coq Require Import String Ascii.
 From Radius Require Import Base.Bytes Base.Guard Base.Res Gen.Consts
-  Model.Attrs Model.Packet Model.Passwords Model.Codecs Model.Client Model.Exchange Model.Dispatch Spec.C06 Model.Shutdown Model.ShutdownSched Spec.C05 Spec.C10 Spec.C09 Spec.C01 Spec.C03 Spec.C04 Spec.C11.
+  Model.Attrs Model.Packet Model.Passwords Model.Codecs Model.Client Model.Exchange Model.Dict Model.Dispatch Spec.C06 Model.Shutdown Model.ShutdownSched Spec.C05 Spec.C10 Spec.C09 Spec.C01 Spec.C03 Spec.C04 Spec.C11.
 From Radius Require Import Crypto.MD5.
 Open Scope list_scope.
 Open Scope nat_scope.
 
 Inductive tok := TI (z : Z) | TB (b : bytes).
 
-Definition s2b (s : string) : bytes := map N_of_ascii (list_ascii_of_string s).
 
 Definition name_is (name : bytes) (s : string) : bool := beq name (s2b s).
 
@@ -337,6 +336,42 @@ Definition dispatch_c08 (name : bytes) (bs : list bytes) (zs : list Z) : option 
     end
   else None.
 
+(* ---- C15 / C16 / C20 ---- *)
+Definition t_optz (o : option Z) : list tok := match o with Some v => [TI 1; TI v] | None => [TI 0] end.
+Definition t_attr (a : attr) : list tok :=
+  [TB (a_name a); TI (zlen (a_oid a))] ++ map TI (a_oid a) ++ [TI (a_type a)] ++ t_optz (a_size a) ++ t_optz (a_encrypt a)
+  ++ tbool (a_has_tag a) ++ tbool (a_concat a).
+Definition t_value (v : value) : list tok := [TB (v_attr v); TB (v_name v); TI (v_number v)].
+Definition t_vendor (v : vendor) : list tok :=
+  [TB (vn_name v); TI (vn_number v)] ++ (match vn_format v with Some (t, l) => [TI 1; TI t; TI l] | None => [TI 0] end)
+  ++ [TI (zlen (vn_attrs v))] ++ flat_map t_attr (vn_attrs v) ++ [TI (zlen (vn_values v))] ++ flat_map t_value (vn_values v).
+Definition t_dict (d : dict) : list tok :=
+  [TI (zlen (d_attrs d))] ++ flat_map t_attr (d_attrs d) ++ [TI (zlen (d_values d))] ++ flat_map t_value (d_values d)
+  ++ [TI (zlen (d_vendors d))] ++ flat_map t_vendor (d_vendors d).
+Definition t_pres (r : pres dict) : list tok :=
+  match r with
+  | POk d => TI 0 :: t_dict d
+  | PFail (ParseErr c f l) => [TI 1; TI (Z.of_N c); TB f; TI (Z.of_nat l)]
+  | PFail (PlainErr c) => [TI 2; TI (Z.of_N c)]
+  | PFuel => [TI 3]
+  end.
+Definition t_trace (tr : list ioev) : list tok :=
+  TI (zlen tr) :: flat_map (fun e => match e with EvOpen n => [TI 0; TB n] | EvClose n => [TI 1; TB n] | EvReclose n => [TI 2; TB n] end) tr.
+
+(* bs = root name :: root text :: (requested name, canonical name, text)* ; zs = [ignore_identical; fuel] *)
+Fixpoint opener_of (bs : list bytes) (n : bytes) : option (bytes * bytes) :=
+  match bs with
+  | rq :: cn :: tx :: r => if beq rq n then Some (cn, tx) else opener_of r n
+  | _ => None
+  end.
+Definition dispatch_dict (name : bytes) (bs : list bytes) (zs : list Z) : option (list tok) :=
+  if name_is name "m.dictparse" then
+    let '(r, tr) := parse_root (z1 zs =? 1)%Z (opener_of (skipn 2 bs)) (Z.to_nat (nth 1 zs 0%Z)) (b1 bs) (b2 bs) in
+    Some (t_pres r ++ t_trace tr)
+  else if name_is name "m.fields" then Some (flat_map (fun f => [TB f]) (fields (b1 bs)))
+  else if name_is name "m.lines" then Some (flat_map (fun f => [TB f]) (scan_lines (b1 bs)))
+  else None.
+
 Definition dispatch (name : bytes) (bs : list bytes) (zs : list Z) : list tok :=
   if name_is name "m.attrs_run" then run_attrs false bs zs
   else if name_is name "s.attrs_run" then run_attrs true bs zs
@@ -348,7 +383,8 @@ Definition dispatch (name : bytes) (bs : list bytes) (zs : list Z) : list tok :=
   match dispatch_sched name bs zs with Some t => t | None =>
   match dispatch_c06 name bs zs with Some t => t | None =>
   match dispatch_c08 name bs zs with Some t => t | None =>
-  [TI (-97)] end end end end end end end.
+  match dispatch_dict name bs zs with Some t => t | None =>
+  [TI (-97)] end end end end end end end end.
 
 Require Extraction.
 Require Import ExtrOcamlBasic.
